@@ -34,11 +34,13 @@ func (node *ChildNode) Individual() *IndividualNode {
 
 	n := node.family.document.NodeByPointer(valueToPointer(node.value))
 
-	if IsNil(n) {
-		return nil
+	// The pointer may not exist or it may point to a record that is not an
+	// individual.
+	if individual, ok := n.(*IndividualNode); ok {
+		return individual
 	}
 
-	return n.(*IndividualNode)
+	return nil
 }
 
 func (node *ChildNode) Father() *HusbandNode {
